@@ -33,31 +33,43 @@ CLONE_LAYER = D + "extend_object_clone_layer"
 CLONE_FIELD = D + "extend_object_clone_field"
 
 
-def straight_line(body):
-    """blocks from entry following unique normal successors"""
+def cfg_paths(fn, limit=256):
+    """all entry-to-return block paths over normal edges; a loop in a layer builder is an unknown shape"""
+    body = fn.body
     out = []
-    bb = 0
-    seen = set()
-    while bb not in seen:
-        seen.add(bb)
-        out.append(bb)
-        ss = body.succs(bb)
-        if len(ss) != 1:
-            break
-        bb = ss[0]
+    stack = [(0, (0,))]
+    while stack:
+        bb, path = stack.pop()
+        t = body.blocks[bb]["t"]
+        if t["k"] == "return":
+            out.append(list(path))
+            if len(out) > limit:
+                raise kwalk.WalkLimit("%s has too many paths" % fn.q)
+            continue
+        for s2 in body.succs(bb):
+            if body.blocks[s2]["cleanup"]:
+                continue
+            if s2 in path:
+                raise kwalk.WalkLimit("%s builds layers in a loop" % fn.q)
+            stack.append((s2, path + (s2,)))
+    if not out:
+        raise kwalk.WalkLimit("%s has no return path" % fn.q)
     return out
 
 
-def layer_sequence(F, fn, obj_args):
-    """ordered contributions to the new object's layers: list of (op, source field, source argument)"""
+def layer_sequence(F, fn, obj_args, order=None, P=None):
+    """ordered contributions to the new object's layers along one path: list of (op, source field, source argument)"""
     body = fn.body
-    P = prov.Prov(F, body)
-    P.with_base = True
+    if P is None:
+        P = prov.Prov(F, body)
+        P.with_base = True
     seq = []
     clone_dst = {}
-    order = straight_line(body)
-    if body.blocks[order[-1]]["t"]["k"] != "return":
-        raise kwalk.WalkLimit("%s is not straight-line" % fn.q)
+    if order is None:
+        paths = cfg_paths(fn)
+        if len(paths) != 1:
+            raise kwalk.WalkLimit("%s is not straight-line" % fn.q)
+        order = paths[0]
 
     def src_of(op):
         org = P.origins_op(op)
@@ -73,6 +85,8 @@ def layer_sequence(F, fn, obj_args):
             flds, other = src_of(t["xs"][0])
             clone_dst[t["dst"]["l"]] = (flds, other)
         elif n == "<alloc::vec::Vec>::push":
+            if "ObjectLayer" not in body.ty(t["xs"][1]["t"])["s"]:
+                continue
             x = t["xs"][1]
             if x["k"] in ("copy", "move") and not x["p"] and x["l"] in clone_dst:
                 seq.append(("push-clone", clone_dst[x["l"]]))
@@ -91,6 +105,48 @@ def layer_sequence(F, fn, obj_args):
                     mapped = bool(ty and ty["k"] == "fndef" and ty["d"] == CLONE_LAYER)
             seq.append(("extend-clones" if mapped else "extend-raw", (flds, other)))
     return seq, clone_dst, P
+
+
+def linear_len(F, body, P, op, depth=0):
+    """usize operand as const + sum(coef * len(<ObjectData field>)); None when not of that form"""
+    if op["k"] == "const":
+        v = op.get("v")
+        return (v, {}) if isinstance(v, int) else None
+    if depth > 12:
+        return None
+    l = op["l"]
+    proj = op["p"]
+    defs = [d for d in P.defs.get(l, [])]
+    if len(defs) != 1:
+        return None
+    d = defs[0]
+    if d[0] == "assign":
+        rv = d[3]["rv"]
+        if rv["k"] == "use":
+            return linear_len(F, body, P, rv["x"], depth + 1)
+        if rv["k"] == "binop" and rv["op"] in ("Add", "AddWithOverflow", "Sub", "SubWithOverflow"):
+            if rv["op"].endswith("WithOverflow") and not (len(proj) == 1 and proj[0] != "*" and proj[0]["k"] == "f" and proj[0]["i"] == 0):
+                return None
+            a = linear_len(F, body, P, rv["a"], depth + 1)
+            b = linear_len(F, body, P, rv["b"], depth + 1)
+            if a is None or b is None:
+                return None
+            sgn = -1 if rv["op"].startswith("Sub") else 1
+            terms = dict(a[1])
+            for k, c in b[1].items():
+                terms[k] = terms.get(k, 0) + sgn * c
+            return (a[0] + sgn * b[0], {k: c for k, c in terms.items() if c})
+        return None
+    if d[0] == "call":
+        t = d[3]
+        n = callee_name(t) or ""
+        if n == "<alloc::vec::Vec>::len" or n.endswith("<[T]>::len"):
+            org = P.origins_op(t["xs"][0])
+            flds = {(o[2], o[3]) for o in org if o[0] == "field" and o[1] == OBJ}
+            if len(flds) == 1 and len(org) == 1:
+                return (0, {next(iter(flds)): 1})
+        return None
+    return None
 
 
 def rule_r1_r2_objects(F, rep):
@@ -145,13 +201,48 @@ def rule_r1_r2_objects(F, rep):
     rep.fn(rem)
     rbody = rem.body
     oa = [l for l in range(2, rbody.argc + 1) if OBJ.rsplit("::", 1)[1] in rbody.local_ty(l)["s"]]
-    seq, clone_dst, P2 = layer_sequence(F, rem, oa)
-    got = [(op, sorted(flds), sorted(map(str, other))) for op, (flds, other) in seq]
-    exp = [("push-clone", [("self_layer", oa[0])], []), ("extend-clones", [("super_layers", oa[0])], [])]
-    ok = got == exp
-    rep.ob(R1, "object_with_field_removed|layer-order", ok, {"contributions": [str(g) for g in got]})
-    if not ok:
-        rep.violation(R1, "%s|layer-order" % rem.q, "layers below the removal marker are built as %s, expected %s" % (got, exp), rem.loc)
+    P2 = prov.Prov(F, rbody)
+    P2.with_base = True
+    paths = cfg_paths(rem)
+    for pi, order in enumerate(paths):
+        seq, clone_dst, _ = layer_sequence(F, rem, oa, order, P2)
+        got = [(op, sorted(flds), sorted(map(str, other))) for op, (flds, other) in seq]
+        stacked = [("push-clone", [("self_layer", oa[0])], []), ("extend-clones", [("super_layers", oa[0])], [])]
+        merged = [("extend-clones", [("super_layers", oa[0])], [])]
+        # the object literal built on this path
+        inpath = set(order)
+        self_from_clone = False
+        for bb, si, st in rbody.assigns():
+            rv = st["rv"]
+            if bb in inpath and rv["k"] == "agg" and rv.get("adt") == OBJ:
+                for nm, x in zip(rv["fn"], rv["xs"]):
+                    if nm == "self_layer":
+                        org = P2.origins_op(x)
+                        self_from_clone = any(o[0] == "call" and o[1] == CLONE_LAYER for o in org)
+        ok = got == stacked or (got == merged and self_from_clone)
+        rep.ob(R1, "object_with_field_removed|layer-order|path%d" % pi, ok, {"contributions": [str(g) for g in got]})
+        if not ok:
+            rep.violation(R1, "%s|layer-order" % rem.q, "layers below the removal marker are built as %s, expected %s (marker "
+                          "stacked on the unchanged clone sequence)" % (got, stacked), rem.loc)
+            continue
+        # Removed(depth): the marker hides exactly the layers below it at creation time
+        npush = sum(1 for g in got if g[0] == "push-clone")
+        want = (npush, {("super_layers", oa[0]): sum(1 for g in got if g[0] == "extend-clones")})
+        nrem = 0
+        for bb in order:
+            for st in rbody.blocks[bb]["s"]:
+                if st["k"] == "assign" and st["rv"]["k"] == "agg" and st["rv"].get("adt") == FIELD and st["rv"]["v"] == "Removed":
+                    nrem += 1
+                    lin = linear_len(F, rbody, P2, st["rv"]["xs"][0])
+                    okd = lin is not None and lin[0] == want[0] and lin[1] == {k: c for k, c in want[1].items() if c}
+                    rep.ob(R1, "object_with_field_removed|marker-depth|path%d" % pi, okd, {"depth": str(lin), "layers_below": str(want)})
+                    if not okd:
+                        rep.violation(R1, "%s|marker-depth" % rem.q, "the removal marker is built with depth %s but %s layers "
+                                      "lie below it on this path (const + len(field) terms): the marker hides a layer that is "
+                                      "added later on the left, or fails to hide one of the object's own"
+                                      % (lin, want), rbody.span(st["sp"]))
+        if nrem == 0:
+            rep.violation(R1, "%s|no-marker" % rem.q, "a path of object_with_field_removed builds no ObjectField::Removed marker", rem.loc)
     fresh = {}
     for bb, si, s in rbody.assigns():
         rv = s["rv"]
@@ -429,10 +520,113 @@ def rule_r3(F, rep):
                 rep.violation(R, "%s|%s" % (fts.q, fs), "field_to_state maps %s to %s" % (fs, sorted(r)), fts.loc)
 
 
+def rule_r3_merge(F, rep):
+    R = rep.rule("C07.R3b", "the field list used by manifestation, std.length and std.objectFields(All) scans the layers with "
+                 "the same rule as the single-name lookups (has_visible_field, find_field): while deeper layers can still "
+                 "change what is known about a name, a removal marker met for that name must be recorded (it hides the "
+                 "layers it covers); a marker that is ignored lets a hidden layer's field leak into the list, so the "
+                 "queries disagree on which fields exist")
+    gfo = F.fn("<%s>::get_fields_order" % OBJ)
+    cands = [gfo] + list(F.closures_of(gfo))
+    site = None
+    for c in cands:
+        for bb, t in c.body.calls():
+            n = callee_name(t) or ""
+            if n.endswith("OccupiedEntry>::get_mut") or n.endswith("OccupiedEntry>::into_mut"):
+                site = (c, bb, t)
+    if site is None:
+        raise kwalk.WalkLimit("get_fields_order: no merge of an occupied entry found")
+    c, sbb, st = site
+    rep.fn(c)
+    body = c.body
+    E = st["dst"]["l"]
+    ety = body.ty(body.local_ty(E)["t"]) if body.local_ty(E)["k"] == "ref" else None
+    if not ety or ety["k"] != "adt":
+        raise kwalk.WalkLimit("get_fields_order: merge state is not an enum")
+    T = ety["d"]
+    tadt = F.adt(T)
+    # incoming field locals: every `&ObjectField` local
+    flocals = [l for l in range(len(body.locals)) if body.local_ty(l)["k"] == "ref"
+               and body.ty(body.local_ty(l)["t"])["k"] == "adt" and body.ty(body.local_ty(l)["t"])["d"] == FIELD]
+    if not flocals:
+        raise kwalk.WalkLimit("get_fields_order: incoming field not found")
+    vis_i = [i for i, f in enumerate(F.adt(FDATA)["variants"][0]["fields"]) if f["n"] == "visibility"][0]
+    # enumerate merge states: variant x visibility payloads
+    states = []
+    for v in tadt["variants"]:
+        cr = tadt["_crate"]
+        vfs = [i for i, f in enumerate(v["fields"]) if cr.types[f["t"]]["k"] == "adt" and cr.types[f["t"]]["d"] == VIS]
+        if vfs:
+            for vv in F.variants(VIS):
+                states.append((v["n"], {vfs[0]: vv}))
+        else:
+            states.append((v["n"], {}))
+    incoming = [("Normal", vv) for vv in F.variants(VIS)] + [("Removed", None)]
+    table = {}
+    for sv, pay in states:
+        for iv, ivis in incoming:
+            env0 = {"%d.*" % E: ("var", T, sv)}
+            for i, vv in pay.items():
+                env0["%d.*@%s.%d" % (E, sv, i)] = ("var", VIS, vv)
+            for fl in flocals:
+                env0["%d.*" % fl] = ("var", FIELD, iv)
+                if ivis is not None:
+                    env0["%d.*@Normal.0.%d" % (fl, vis_i)] = ("var", VIS, ivis)
+
+            def on_stmt(w, bb, idx, s, env):
+                if s["k"] != "assign":
+                    return None
+                pl = s["p"]
+                if pl["p"] and pl["p"][0] == "*" and (pl["l"] == E or env.get("#alias%d" % pl["l"])):
+                    return ("write",)
+                rv = s["rv"]
+                if rv["k"] == "ref" and rv.get("m") and rv["p"]["p"] and rv["p"]["p"][0] == "*" and \
+                        (rv["p"]["l"] == E or env.get("#alias%d" % rv["p"]["l"])) and not pl["p"]:
+                    env["#alias%d" % pl["l"]] = 1
+                return None
+
+            def on_term(w, bb, t, env):
+                if t["k"] == "call" and (callee_name(t) or "").endswith("Iterator>::next"):
+                    return kwalk.STOP
+                return None
+
+            def hook(w, bb, t, env, args):
+                return None
+            w = kwalk.Walker(F, body, on_stmt=on_stmt, on_term=on_term, call_result=hook, want_ret=False)
+            start = st["t"]
+            outs = w.run(start, dict(env0))
+            rep.states += w.states_explored
+            res = set()
+            for kind, marks, _ in outs:
+                if kind.startswith("diverge"):
+                    continue
+                res.add("write" if ("write",) in marks else "keep")
+            table[(sv, tuple(sorted(pay.items())), iv, ivis)] = res
+    nrows = 0
+    for sv, pay in states:
+        key = (sv, tuple(sorted(pay.items())))
+        opens = any("write" in table[key + (iv, ivis)] for iv, ivis in incoming if iv == "Normal")
+        rem = table[key + ("Removed", None)]
+        ok = (not opens) or ("write" in rem)
+        nrows += 1
+        rep.ob(R, "merge|%s%s" % (sv, dict(pay) or ""), ok,
+               {"state": sv, "payload": {str(k): v for k, v in pay.items()}, "a deeper field can still change it": opens,
+                "on a removal marker": sorted(rem)})
+        if not ok:
+            rep.violation(R, "%s|merge|%s%s|ignores-removal-marker" % (gfo.q, sv, "".join("|%s" % v for v in pay.values())),
+                          "get_fields_order: while a name is in state %s%s a deeper layer's field can still change it, but a "
+                          "removal marker met in that state is ignored — the layers the marker hides are then merged into the "
+                          "field list although has_visible_field / find_field skip them (e.g. objectRemoveKey({a::2}, 'a') + "
+                          "{a: 3}: objectHas says the field exists, objectFields and manifestation omit it)"
+                          % (sv, dict(pay) or ""), c.loc)
+    rep.floor(R, nrows, 3, "merge states")
+
+
 def run(F, rep, tier):
     R1, R2 = rule_r1_r2_objects(F, rep)
     rule_r2_clones(F, rep, R2)
     rule_r3(F, rep)
+    rule_r3_merge(F, rep)
     rep.assume("layer-index arithmetic (layer_i + depth + 1, super_layers.len() + 1), value-level associativity and "
                "self/super/$ resolution at nesting are not decided")
     rep.trust("Jsonnet specification: field visibility of inherited fields (the right-most explicit visibility wins; default inherits)")
